@@ -27,7 +27,7 @@ def agent_pose_contract(self, state):
 
 
 @contract(target=SR + 'AgentStateRepresentation.convert',
-          args={'self': ('raw', SR + 'AgentStateRepresentation', {'state_space': 'Token'}), 'state': 'State'},
+          args={'self': ('new', SR + 'AgentStateRepresentation', ['Token']), 'state': 'State'},
           props=['C15', 'C16'])
 def agent_state_convert(self, state):
     agent_pose_contract(self, state)
@@ -45,14 +45,14 @@ def marker_contract(self, x):
 
 
 @contract(target=SR + 'AgentIDGridStateRepresentation.convert',
-          args={'self': ('raw', SR + 'AgentIDGridStateRepresentation', {'state_space': 'Token'}), 'state': 'State'},
+          args={'self': ('new', SR + 'AgentIDGridStateRepresentation', ['Token']), 'state': 'State'},
           props=['C15', 'C16'])
 def agent_id_grid_state_convert(self, state):
     marker_contract(self, state)
 
 
 @contract(target=OR + 'AgentIDGridObservationRepresentation.convert',
-          args={'self': ('raw', OR + 'AgentIDGridObservationRepresentation', {'observation_space': 'Token'}),
+          args={'self': ('new', OR + 'AgentIDGridObservationRepresentation', ['Token']),
                 'observation': 'Observation'}, props=['C15', 'C16'])
 def agent_id_grid_observation_convert(self, observation):
     marker_contract(self, observation)
@@ -70,15 +70,14 @@ def grid_contract(self, x):
 
 
 @contract(target=SR + 'GridStateRepresentation.convert',
-          args={'self': ('raw', SR + 'GridStateRepresentation', {'state_space': 'Token', 'grid_object_representation': ENC}),
+          args={'self': ('new', SR + 'GridStateRepresentation', ['Token', ENC]),
                 'state': 'State'}, props=['C15', 'C16'])
 def grid_state_convert(self, state):
     grid_contract(self, state)
 
 
 @contract(target=OR + 'GridObservationRepresentation.convert',
-          args={'self': ('raw', OR + 'GridObservationRepresentation',
-                         {'observation_space': 'Token', 'grid_object_representation': ENC}),
+          args={'self': ('new', OR + 'GridObservationRepresentation', ['Token', ENC]),
                 'observation': 'Observation'}, props=['C15', 'C16'])
 def grid_observation_convert(self, observation):
     grid_contract(self, observation)
@@ -92,15 +91,14 @@ def item_contract(self, x):
 
 
 @contract(target=SR + 'ItemStateRepresentation.convert',
-          args={'self': ('raw', SR + 'ItemStateRepresentation', {'state_space': 'Token', 'grid_object_representation': ENC}),
+          args={'self': ('new', SR + 'ItemStateRepresentation', ['Token', ENC]),
                 'state': 'State'}, props=['C15', 'C16'])
 def item_state_convert(self, state):
     item_contract(self, state)
 
 
 @contract(target=OR + 'ItemObservationRepresentation.convert',
-          args={'self': ('raw', OR + 'ItemObservationRepresentation',
-                         {'observation_space': 'Token', 'grid_object_representation': ENC}),
+          args={'self': ('new', OR + 'ItemObservationRepresentation', ['Token', ENC]),
                 'observation': 'Observation'}, props=['C15', 'C16'])
 def item_observation_convert(self, observation):
     item_contract(self, observation)
